@@ -56,6 +56,14 @@ MSSMNoFV_onshell make_mssm(std::uint64_t seed)
       vm::MssmPt p = vm::random_mssm(r, 300, 2000, 3, 50);
       p.as = twin(r, p.as); p.MZ = twin(r, p.MZ); p.Mb = twin(r, p.Mb); p.Mt = twin(r, p.Mt); p.aMZ = twin(r, p.aMZ);
       p.Mtau = twin(r, p.Mtau); p.MW = twin(r, p.MW);
+      if (r.below(4) == 0) {
+         // a model with force-output whose spectrum is close to a tachyon: large tan(beta), large positive mu, light
+         // third-generation squarks (the spectrum with tree-level Yukawa couplings differs most from the resummed one)
+         m.do_force_output(true);
+         p.TB = r.uni(40, 60); p.Mu = r.uni(1500, 3000); p.M3 = r.uni(2000, 3000);
+         const double mq = r.uni(400, 900);
+         p.mq2[2] = p.md2[2] = mq * mq;
+      }
       if (vm::exc_class([&] { vm::apply(m, p); m.calculate_masses(); }).empty()) return m;
    }
    MSSMNoFV_onshell m; vm::apply(m, vm::MssmPt()); m.calculate_masses(); return m;
